@@ -1,6 +1,6 @@
 prop(
     "C08",
-    quick=[("native", 4), ("miri", 4)],
+    quick=[("native", 16), ("miri", 4)],
     thorough=[("native", 16), ("asan", 8), ("miri", 8)],
     level="exploration",
     min_evals={"quick": 12_000, "thorough": 1_000_000},
